@@ -14,7 +14,7 @@ MAP = {
     "C04_m1": [("C04", "blk.ima"), ("C07", "blk.ima")], "C04_m2": [("C04", "aiff.pcm16.ch1024")],
     "C05_m1": [("C05", "wrap.read_raw.ch2")], "C05_m2": [("C05", "sg.pcm_32be.double.RD")],
     "C06_m1": [("C06", "blk.")], "C06_m2": [("C06", "seek.ima_aiff.ch2")],
-    "C07_m1": [("C18", "peak.float32.int.ch2"), ("C07", "peak.")], "C07_m2": [("C07", None)],
+    "C07_m1": [("C18", "peak.float32.int.ch2.fixed")], "C07_m2": [("C07", None)],
     "C08_m1": [("C08", None)], "C08_m2": [("C08", None)],
     "C09_m1": [("C09", "wrap.seek.ch1"), ("C06", "wrap.seek.ch1")], "C09_m2": [("C09", "metarefuse"), ("C17", "metarefuse")],
     "C10_m1": [("C10", "mat4cpu"), ("C04", "mat4cpu.pcm16.ch1.n1")], "C10_m2": [("C10", "tables.index")],
@@ -45,7 +45,7 @@ MAP = {
     "C13_m3": [("C13", None)], "C13_m4": [("C13", None)],
     "C14_m3": [("C14", None)], "C14_m4": [("C14", "fileio.ownership"), ("C19", "fileio.ownership")],
     "C17_m3": [("C17", "cmd.SFC_GET_BROADCAST_INFO")], "C17_m4": [("C17", "cmd.SFC_GET_LOG_INFO")],
-    "C18_m3": [("C18", ".fixed")], "C18_m4": [("C18", "calc.SFC_CALC_SIGNAL_MAX")],
+    "C18_m3": [("C18", "peak.double64.float.ch2.fixed")], "C18_m4": [("C18", "calc.SFC_CALC_SIGNAL_MAX")],
     "C19_m3": [("C19", None)], "C19_m4": [("C19", None)],
     "C20_m3": [("C20", "g711fd")], "C20_m4": [("C20", "ieee.double64.read")],
     "R_g711_intmin": [("C20", "g711.H_ENCODE_I")], "R_d2sc_clip": [("C02", "sc.WR_D.norm1.clip1")], "R_cmdstr0": [("C17", "cmd.SFC_GET_LIB_VERSION")],
